@@ -98,6 +98,18 @@ def judge(case, out):
     if op == "match":
         exp = lcp_len(ca, content(b))
         return None if (kind == "val" and num == exp) else "wrong: expected val %d" % exp
+    if op in ("find_alias", "ends_with_alias", "match_alias"):
+        # second operand = tail of the very same buffer from byte offset `off` (aliasing operands): the answers are
+        # those of the byte-string definitions on (content, content[off:])
+        off = int.from_bytes(b, "big")
+        tail = ca[off:]
+        if op == "find_alias":
+            return want_opt_index(opt_idx(ca.find(tail)))
+        if op == "ends_with_alias":
+            exp = "true" if ca.endswith(tail) else "false"
+            return None if kind == exp else "wrong: expected " + exp
+        exp = lcp_len(ca, tail)
+        return None if (kind == "val" and num == exp) else "wrong: expected val %d" % exp
     if op == "match_str":
         exp = lcp_len(ca, b)
         return None if (kind == "val" and num == exp) else "wrong: expected val %d" % exp
@@ -146,6 +158,23 @@ def gen_cases(ctx):
             cases.append("find_buf %s %s" % (K.hx(a), K.hx(b)))
             cases.append("match_str %s %s" % (K.hx(a), K.hx(b)))
             cases.append("ends_with %s %s" % (K.hx(a), K.hx(b)))
+    # aliasing operands: the needle / suffix / other string is a tail of the haystack's own buffer
+    for a in K.strings([0x61, 0x62, SL], 5 if quick else 6):
+        ta = K.hx(a + b"\0")
+        for off in range(0, len(a) + 1):
+            ob = K.hx(bytes([off]))
+            cases.append("find_alias %s %s" % (ta, ob))
+            cases.append("ends_with_alias %s %s" % (ta, ob))
+            cases.append("match_alias %s %s" % (ta, ob))
+    # &str operands with multi-byte characters (the byte-string definition ignores character boundaries)
+    utf = [b"a", b"\xc3\xa9", b"\xc3\xa8", b"\xe2\x82\xac", b"\xe2\x82\xad", b"\xf0\x9f\x98\x80", b"\xf0\x9f\x98\x81", b"/"]
+    ustrs = [b"".join(t) for nn in range(0, 4) for t in __import__("itertools").product(utf, repeat=nn)]
+    for a in ustrs:
+        for b in (ustrs if not quick else r.shuffle(ustrs)[:60]):
+            cases.append("match_str %s %s" % (K.hx(a + b"\0"), K.hx(b)))
+            # the UnixStr side may also end in the middle of a character
+            if len(a) > 1:
+                cases.append("match_str %s %s" % (K.hx(a[:-1] + b"\0"), K.hx(b)))
     # long random strings: needles cut out of the haystack (found), perturbed (near misses), at the very end
     n = 60 if quick else 1500
     for h in K.long_random(r, n, [0x61, 0x62, SL]):
